@@ -74,8 +74,10 @@ def generate(ctx):
                 if nd2 > 1 and rng.random() < 0.25:
                     shp[rng.randrange(nd2)] = 0     # no elements but more than one dimension: NOT an ignorable value, constraints apply
                 ops.append({"op": "assign", "shape": shp})
-            else:
+            elif r < 0.95:
                 ops.append({"op": "assign_none"})
+            else:
+                ops.append({"op": rng.choice(["toggle_strict", "toggle_live"])})
         yield {"part": "shaped", "shape": shape, "storage": rng.choice(["buffer", "param", "none", "empty"]),
                "strict": rng.random() < 0.5, "live": rng.random() < 0.3, "ops": ops,
                "init": {str(d): shape[d] for d in rng.sample(range(-nd, nd), rng.randint(0, min(2, nd)))}}
@@ -342,7 +344,17 @@ def _run_shaped(ctx, desc):
         mshape = None if mdata is None else mdata.shape
         ign = _ignored_shape(mshape)
         valid_before = ign or _satisfies(mshape, mcons, strict)
-        if op["op"] == "assign_none":
+        if op["op"] in ("toggle_strict", "toggle_live"):
+            # plain flags: from now on validity / dimensionality (strict) and assignment testing (live) follow the new value
+            if op["op"] == "toggle_strict":
+                strict = not strict
+                st.strict = strict
+            else:
+                live = not live
+                st.live = live
+            ctx.case(f"shaped/{op['op']}", nontrivial=False)
+            ctx.count("flag_toggles")
+        elif op["op"] == "assign_none":
             if storage == "param":
                 continue
             st.value = None
@@ -462,6 +474,11 @@ def _run_shaped(ctx, desc):
             return
         if st.dimensionality != _dimensionality(mcons, strict):
             ctx.violation("shaped.dimensionality", f"dimensionality {st.dimensionality}", rdesc)
+            return
+        probe = tuple(1 + (ctr[0] + oi + d) % 4 for d in range(1 + (ctr[0] + oi) % 3))
+        ctx.count("compatible_queries")
+        if bool(st.compatible(torch.zeros(probe))) != _satisfies(probe, mcons, strict):
+            ctx.violation("shaped.compatible_query", f"compatible(zeros{probe}) = {st.compatible(torch.zeros(probe))} with {mcons} strict={strict}", rdesc)
             return
         v = st.value
         v_empty = v is None or isinstance(v, (nn.UninitializedBuffer, nn.UninitializedParameter)) or (
